@@ -13,7 +13,7 @@
      RSync C w k r  wf_fs w, the root is a directory, WInv, Cover, kernel queue empty
      mask_ok C      the event mask contains IN_CREATE, IN_MOVED_FROM, IN_MOVED_TO (WATCHDOG_ALL does) *)
 Require Import WD.Base.Prelude WD.Base.BStr WD.Model.SubEvents WD.Model.Emitter WD.Model.Fs WD.Model.Reader
-               WD.Model.Pipeline WD.Proofs.CoverProofs.
+               WD.Model.Pipeline WD.Proofs.CoverProofs WD.Proofs.ReplayPipeProofs.
 
 (* ---- 1. well-formed file systems are closed under every applicable operation on normal paths *)
 Theorem C02_wf_preserved : forall w o w', wf_fs w -> op_np o -> apply_op w o = Some w' -> wf_fs w'.
@@ -194,6 +194,22 @@ Theorem C02_cover_from_start_partial : forall C, c_faults C = [] -> forall ops w
                          wf_fs w' /\ Cover C (w_fs w') k' r'.
 Proof. exact cover_from_start. Qed.
 Print Assumptions C02_cover_from_start_partial.
+
+(* the same on the Pipeline model, through DelayQueue and Grouping: one block  AOp o; ARead (whole queue); ATick delay;
+   AEmit x nit  per applicable operation; after every block the pipeline is synchronised and idle again (PSync) *)
+Theorem C02_cover_sequential_pipeline_partial : forall P, let C := pc_reader P in
+  c_faults C = [] -> mask_ok C -> pc_filter P = None ->
+  forall ops s, PSync P s -> ops_covered C (p_world s) ops ->
+  exists h s' obs, block_hist P s ops h /\ prun P s h [] = Done (s', obs) /\ PSync P s' /\
+    Cover C (w_fs (p_world s')) (p_k s') (p_r s').
+Proof. exact blocks_cover. Qed.
+Print Assumptions C02_cover_sequential_pipeline_partial.
+
+(* the state right after Inotify.__init__ is such a state *)
+Theorem C02_pinit_sync : forall P w s0, c_faults (pc_reader P) = [] -> wf_fs w ->
+  fisdir (c_root (pc_reader P)) (w_fs w) = true -> pinit P w = Some s0 -> PSync P s0 /\ p_world s0 = w /\ p_out s0 = [].
+Proof. exact pinit_sync. Qed.
+Print Assumptions C02_pinit_sync.
 
 (* ---- 2d. the probe: from a synchronised state, creating a fresh file [name] in ANY directory in scope makes the reader
    produce, first, a raw IN_CREATE event whose src_path is the real path d/name; the emitter turns it into
